@@ -30,6 +30,12 @@ Theorem frame_terminates_within_gas fuel E cx s : inv s -> s_gas s < Z.of_nat fu
   r_out (run fuel E cx s) <> O_fuel /\ 0 <= r_gas (run fuel E cx s) <= s_gas s.
 Proof. exact (run_gas fuel E cx s). Qed.
 
+(* ... and any larger fuel gives the same answer (the oracle runs with one fixed large fuel) *)
+Theorem fuel_irrelevant f f' E static to input gas w :
+  r_out (call_top f E static to input gas w) <> O_fuel -> (f <= f')%nat ->
+  call_top f' E static to input gas w = call_top f E static to input gas w.
+Proof. exact (call_top_fuel_irrelevant f f' E static to input gas w). Qed.
+
 (* 3. a frame that does not end successfully (error, REVERT, or outside the model) leaves storage, logs and refund exactly
       as at its entry, whatever it and its nested calls did: at the entry call and at every nested call *)
 Theorem failed_frame_no_effect fuel E static to input gas w :
@@ -95,6 +101,7 @@ Print Assumptions alu_matches_math.
 Print Assumptions alu_step_matches_math.
 Print Assumptions run_terminates_within_gas.
 Print Assumptions frame_terminates_within_gas.
+Print Assumptions fuel_irrelevant.
 Print Assumptions failed_frame_no_effect.
 Print Assumptions failed_nested_frame_no_effect.
 Print Assumptions static_no_write.
